@@ -1,0 +1,81 @@
+//! Verification hooks (compiled only with `--cfg wtransport_verif`).
+//!
+//! Nothing here changes the behaviour of the library: the module re-exports a few
+//! crate-private building blocks so that an external harness can drive them directly,
+//! and keeps a process-wide log of hand-off events that the driver appends to.
+
+pub use crate::driver::utils::bichannel;
+pub use crate::driver::utils::shared_result;
+pub use crate::driver::utils::BiChannelEndpoint;
+pub use crate::driver::utils::SendError;
+pub use crate::driver::utils::SharedResultGet;
+pub use crate::driver::utils::SharedResultSet;
+pub use crate::driver::utils::TrySendError;
+
+/// Event log of the hand-off of peer-opened streams.
+pub mod log {
+    use std::sync::Mutex;
+
+    /// Direction of a stream.
+    #[derive(Copy, Clone, Debug, PartialEq, Eq)]
+    pub enum Dir {
+        /// Unidirectional.
+        Uni,
+        /// Bidirectional.
+        Bi,
+    }
+
+    /// What a per-stream task learnt from the preamble.
+    #[derive(Copy, Clone, Debug, PartialEq, Eq)]
+    pub enum Class {
+        /// A WebTransport stream of this session.
+        Wt(u64),
+        /// An HTTP/3 stream (control, QPACK, request, grease): handed to the worker.
+        H3,
+        /// The stream ended, or was refused, before its preamble was complete.
+        Gone,
+    }
+
+    /// One event.
+    #[derive(Copy, Clone, Debug, PartialEq, Eq)]
+    pub enum Ev {
+        /// The worker took the stream from the QUIC accept queue and spawned its task.
+        WorkerAccept(Dir, u64),
+        /// The stream's task finished with the preamble.
+        Preamble(Dir, u64, Class),
+        /// The stream's task is about to wait for a slot of the application channel.
+        SendBegin(Dir, u64),
+        /// The stream is in the application channel.
+        SendEnd(Dir, u64),
+        /// An application-facing accept call took the stream out of the channel
+        /// (`true`: returned to the caller, `false`: other session, discarded).
+        Recv(Dir, u64, bool),
+        /// The worker ended: 0 = not connected, 1 = session closed by the peer, 2 = protocol error.
+        WorkerExit(u8),
+    }
+
+    static LOG: Mutex<Vec<(usize, Ev)>> = Mutex::new(Vec::new());
+
+    /// Appends an event of connection `conn` (quinn's stable id).
+    pub fn record(conn: usize, ev: Ev) {
+        if let Ok(mut log) = LOG.lock() {
+            log.push((conn, ev));
+        }
+    }
+
+    /// Takes the events of connection `conn` out of the log, in order.
+    pub fn take(conn: usize) -> Vec<Ev> {
+        let mut out = Vec::new();
+        if let Ok(mut log) = LOG.lock() {
+            log.retain(|(c, ev)| {
+                if *c == conn {
+                    out.push(*ev);
+                    false
+                } else {
+                    true
+                }
+            });
+        }
+        out
+    }
+}
